@@ -176,7 +176,11 @@ func (t *IntervalAwareForceTicker) ResetWithInterval(newInterval time.Duration) 
 // Reset restarts the ticker interval, causing the next clock tick to occur in
 // the configured interval.
 func (t *IntervalAwareForceTicker) Reset() {
-	t.ResetWithInterval(t.interval)
+	t.resetMtx.Lock()
+	interval := t.interval
+	t.resetMtx.Unlock()
+
+	t.ResetWithInterval(interval)
 }
 
 // ForceTick force feeds an event into the ticker channel and resets the
@@ -200,7 +204,11 @@ func (t *IntervalAwareForceTicker) LastTimedTick() time.Time {
 // NextTickIn returns the approximate duration until the next timed tick will
 // occur.
 func (t *IntervalAwareForceTicker) NextTickIn() time.Duration {
-	nextTick := t.LastTimedTick().Add(t.interval)
+	t.resetMtx.Lock()
+	interval := t.interval
+	t.resetMtx.Unlock()
+
+	nextTick := t.LastTimedTick().Add(interval)
 	durationToNextTick := time.Until(nextTick)
 	if durationToNextTick < 0 {
 		return 0
